@@ -64,7 +64,8 @@ type scenario struct {
 	Runs     []run  `json:"runs"`
 }
 
-var allSvc = []string{"telnet", "ssh-simulator", "ftp", "smtp", "ldap"}
+// ssh-auth is a second service of the ssh family: it shares the stored host key with ssh-simulator
+var allSvc = []string{"telnet", "ssh-simulator", "ftp", "smtp", "ldap", "ssh-auth"}
 
 func scenarios(tier string, seed int64) []scenario {
 	var out []scenario
@@ -98,7 +99,7 @@ func scenarios(tier string, seed int64) []scenario {
 	}
 	for i := 0; i < nk; i++ {
 		r := core.NewRng(seed, "C18/kill", i)
-		svcs := []string{"telnet", "ssh-simulator", "ftp", "smtp", "ldap"}
+		svcs := allSvc
 		out = append(out, scenario{Kind: "random-kill", Runs: []run{{Services: svcs, KillAt: r.Range(1, 1500)}, {Services: svcs, Stop: "kill"}, {Services: svcs, Stop: "term"}}})
 	}
 	// kills at the k-th system call that touches an identity file (token, its temporary, ...): every
@@ -136,7 +137,7 @@ func scenarios(tier string, seed int64) []scenario {
 // ---- running the real binary ----------------------------------------------------------------
 
 type ports struct {
-	Telnet, SSH, FTP, SMTP, LDAP, Agent int
+	Telnet, SSH, FTP, SMTP, LDAP, Agent, SSHAuth int
 }
 
 var portRng = rand.New(rand.NewSource(time.Now().UnixNano() ^ int64(os.Getpid())<<20))
@@ -158,7 +159,7 @@ func freePorts() ports {
 		}
 		return 0
 	}
-	p := ports{get(), get(), get(), get(), get(), get()}
+	p := ports{get(), get(), get(), get(), get(), get(), get()}
 	for _, l := range ls {
 		l.Close()
 	}
@@ -173,7 +174,7 @@ func config(dir string, p ports, svcs []string, agent bool) string {
 		b.WriteString("[listener]\ntype=\"socket\"\n")
 	}
 	fmt.Fprintf(&b, "[channel.file]\ntype=\"file\"\nfilename=%q\n[[filter]]\nchannel=[\"file\"]\n", filepath.Join(dir, "events.log"))
-	portOf := map[string]int{"telnet": p.Telnet, "ssh-simulator": p.SSH, "ftp": p.FTP, "smtp": p.SMTP, "ldap": p.LDAP}
+	portOf := map[string]int{"telnet": p.Telnet, "ssh-simulator": p.SSH, "ftp": p.FTP, "smtp": p.SMTP, "ldap": p.LDAP, "ssh-auth": p.SSHAuth}
 	for _, s := range svcs {
 		extra := ""
 		if s == "ftp" {
@@ -612,9 +613,9 @@ func runScenario(k int, sc scenario) scnObs {
 			}
 			ro.Identity["agent-key-handshake-with-first-key"] = fmt.Sprint(ok)
 		} else {
-			portOf := map[string]int{"ssh-simulator": p.SSH, "ftp": p.FTP, "smtp": p.SMTP, "ldap": p.LDAP}
-			readers := map[string]func(int) string{"ssh-simulator": readSSHKey, "ftp": readFTPCert, "smtp": readSMTPCert, "ldap": readLDAPCert}
-			names := map[string]string{"ssh-simulator": "ssh-host-key", "ftp": "ftp-cert", "smtp": "smtp-cert", "ldap": "ldap-cert"}
+			portOf := map[string]int{"ssh-simulator": p.SSH, "ftp": p.FTP, "smtp": p.SMTP, "ldap": p.LDAP, "ssh-auth": p.SSHAuth}
+			readers := map[string]func(int) string{"ssh-simulator": readSSHKey, "ftp": readFTPCert, "smtp": readSMTPCert, "ldap": readLDAPCert, "ssh-auth": readSSHKey}
+			names := map[string]string{"ssh-simulator": "ssh-host-key", "ftp": "ftp-cert", "smtp": "smtp-cert", "ldap": "ldap-cert", "ssh-auth": "ssh-auth-host-key"}
 			for _, s := range r.Services {
 				rd := readers[s]
 				if rd == nil {
